@@ -14,10 +14,10 @@ PLAN = dict(
                 "and the -race build attacks shared-state races; a race needing an interleaving the detector does not observe can escape (stated in DESIGN.md section 7)."),
     level_note=NOTE_BASE,
     runs=[
-        dict(name="perm", run="^(TestPropPermutations|TestCorpus)$", checks=(600, 20000), shards=(1, 8), timeout=(300, 1800)),
-        dict(name="hist", run="^TestPropHistory$", checks=(400, 10000), shards=(1, 8), timeout=(300, 1800)),
-        dict(name="firstuse", run="^TestFirstUseConcurrent$", shards=(2, 8), timeout=(300, 600), race=True),
-        dict(name="conc", run="^TestPropConcurrent$", checks=(120, 3000), shards=(1, 4), timeout=(400, 2400), race=True),
+        dict(name="perm", run="^(TestPropPermutations|TestCorpus)$", checks=(600, 100000), shards=(1, 16), timeout=(300, 3600)),
+        dict(name="hist", run="^TestPropHistory$", checks=(400, 50000), shards=(1, 16), timeout=(300, 3600)),
+        dict(name="firstuse", run="^TestFirstUseConcurrent$", shards=(2, 16), timeout=(300, 3600), race=True),
+        dict(name="conc", run="^TestPropConcurrent$", checks=(120, 15000), shards=(1, 4), timeout=(400, 3600), race=True),
     ],
     require=[("permutations", "kind:bundle"), ("permutations", "kind:sxg"), ("permutations", "kind:subset"), ("permutations", "kind:iblock"), ("permutations", "kind:sh-pl"),
              ("history", "kind:bundle"), ("concurrent", "goroutines-16")],
